@@ -9,7 +9,13 @@ where
 {
     if let Some(prev) = maybe_prev {
         if event.is_subject == prev.is_subject {
-            event.set_in_out(!prev.is_in_out(), prev.is_other_in_out());
+            if prev.is_vertical() {
+                // A vertical edge is not crossed when moving upwards just right of the
+                // sweep line, so it must not toggle the in/out state of its own operand.
+                event.set_in_out(prev.is_in_out(), prev.is_other_in_out());
+            } else {
+                event.set_in_out(!prev.is_in_out(), prev.is_other_in_out());
+            }
         } else if prev.is_vertical() {
             event.set_in_out(!prev.is_other_in_out(), !prev.is_in_out());
         } else {
